@@ -102,6 +102,12 @@ func (s *subscriberServer) CreateSubscription(
 		Labels:          req.Labels,
 		Filter:          req.Filter,
 	}
+	if params.TTL < 0 {
+		return nil, status.Error(codes.InvalidArgument, "expiration_policy.ttl must not be negative")
+	}
+	if params.MessageTTL < 0 {
+		return nil, status.Error(codes.InvalidArgument, "message_retention_duration must not be negative")
+	}
 	if params.TTL == 0 {
 		params.TTL = defaultSubscriptionTTL
 	}
@@ -113,6 +119,12 @@ func (s *subscriberServer) CreateSubscription(
 		params.MaxBackoff = req.RetryPolicy.MaximumBackoff.AsDuration()
 	}
 	if req.DeadLetterPolicy != nil {
+		if req.DeadLetterPolicy.DeadLetterTopic == "" {
+			return nil, status.Error(codes.InvalidArgument, "dead_letter_policy.dead_letter_topic must be set")
+		}
+		if req.DeadLetterPolicy.MaxDeliveryAttempts < 0 {
+			return nil, status.Error(codes.InvalidArgument, "dead_letter_policy.max_delivery_attempts must not be negative")
+		}
 		params.MaxDeliveryAttempts = req.DeadLetterPolicy.MaxDeliveryAttempts
 		if params.MaxDeliveryAttempts == 0 {
 			params.MaxDeliveryAttempts = defaultDeadLetterMaxAttempts
